@@ -44,41 +44,54 @@ type Solver struct {
 	encErr    bool
 	storeUses int
 	dead      bool
+	paths     int // paths served by the current process
 }
 
 func NewSolver(kind string, timeoutMs int) (*Solver, error) {
+	keep := os.Getenv("GOSYM_DUMP") != ""
+	s := &Solver{KeepTrace: keep, Kind: kind, defined: map[int]bool{}, decl: map[string]bool{}, timeoutMs: timeoutMs}
+	if err := s.start(); err != nil {
+		return nil, err
+	}
+	return s, nil
+}
+
+// start launches the solver process (also used to replace one that has served many paths:
+// z3 does not give memory back across thousands of push/pop rounds).
+func (s *Solver) start() error {
 	var cmd *exec.Cmd
-	switch kind {
+	switch s.Kind {
 	case "z3":
-		cmd = exec.Command("/usr/bin/z3", "-in", "-smt2")
+		cmd = exec.Command("/usr/bin/z3", "-in", "-smt2", "-memory:3000")
 	case "z3-new":
-		cmd = exec.Command("z3-new", "-in", "-smt2")
+		cmd = exec.Command("z3-new", "-in", "-smt2", "-memory:3000")
 	case "cvc5":
-		cmd = exec.Command("cvc5", "--incremental", "--lang", "smt2", "--produce-models", fmt.Sprintf("--tlimit-per=%d", timeoutMs))
+		cmd = exec.Command("cvc5", "--incremental", "--lang", "smt2", "--produce-models", fmt.Sprintf("--tlimit-per=%d", s.timeoutMs))
 	default:
-		return nil, fmt.Errorf("unknown solver %q", kind)
+		return fmt.Errorf("unknown solver %q", s.Kind)
 	}
 	in, err := cmd.StdinPipe()
 	if err != nil {
-		return nil, err
+		return err
 	}
 	out, err := cmd.StdoutPipe()
 	if err != nil {
-		return nil, err
+		return err
 	}
 	cmd.Stderr = cmd.Stdout
 	if err := cmd.Start(); err != nil {
-		return nil, err
+		return err
 	}
-	keep := os.Getenv("GOSYM_DUMP") != ""
-	s := &Solver{KeepTrace: keep, Kind: kind, cmd: cmd, in: in, out: bufio.NewReaderSize(out, 1<<16), defined: map[int]bool{}, decl: map[string]bool{}, timeoutMs: timeoutMs}
-	if kind == "cvc5" {
+	s.cmd, s.in, s.out = cmd, in, bufio.NewReaderSize(out, 1<<16)
+	s.dead = false
+	s.paths = 0
+	if s.Kind == "cvc5" {
 		s.send("(set-logic ALL)")
 	} else {
 		s.send("(set-option :produce-models true)")
-		s.send(fmt.Sprintf("(set-option :timeout %d)", timeoutMs))
+		s.send(fmt.Sprintf("(set-option :timeout %d)", s.timeoutMs))
 	}
-	return s, nil
+	return nil
 }
 
 func (s *Solver) Close() {
@@ -126,6 +139,15 @@ func (s *Solver) BeginPath() {
 func (s *Solver) EndPath() {
 	s.send(fmt.Sprintf("(pop %d)", s.depth))
 	s.depth = 0
+	s.paths++
+	if s.paths >= 1000 && !s.dead {
+		// a fresh process: bounded memory however long the exploration runs
+		s.Close()
+		if err := s.start(); err != nil {
+			s.Errors = append(s.Errors, "solver restart: "+err.Error())
+			s.dead = true
+		}
+	}
 	s.defined = map[int]bool{}
 	s.decl = map[string]bool{}
 	s.encErr = false
